@@ -245,4 +245,26 @@ theorem T_C17_history (l : Link) (transform : V3 → V3) (ps : List V3) (p : V3)
   | nil => exact ⟨rfl, rfl⟩
   | cons q qs ih => exact ih _
 
+/-- moving a leader through the grid: EVERY link of the leader — not only the first — ends with its follower's grid
+    point at `transform(new leader)`, the leader's point is the given position, and no other point moves -/
+theorem T_C17_grid_all_links (links : List (Nat × (V3 → V3))) (li : Nat) (p : V3) (pts : List V3)
+    (hnd : (links.map Prod.fst).Nodup) (hli : li ∉ links.map Prod.fst) (hlen : li < pts.length)
+    (hin : ∀ l ∈ links, l.1 < pts.length) :
+    (∀ l ∈ links, (gridUpdate links li p pts).getD l.1 V3.zero = l.2 p) ∧
+    (gridUpdate links li p pts).getD li V3.zero = p ∧
+    (∀ j, j ≠ li → j ∉ links.map Prod.fst → (gridUpdate links li p pts).getD j V3.zero = pts.getD j V3.zero) := by
+  unfold gridUpdate
+  refine ⟨?_, ?_, ?_⟩
+  · intro l hl
+    exact foldl_set_written links p _ l hnd hl (by simp; exact hin l hl)
+  · rw [foldl_set_untouched links p _ li hli]
+    exact getD_set_eq' _ _ _ hlen
+  · intro j hj hjl
+    rw [foldl_set_untouched links p _ j hjl]
+    exact getD_set_ne' _ _ _ _ (fun h => hj h.symm)
+
+example : (([(4, fun q => q), (7, fun q => q)] : List (Nat × (V3 → V3))).map Prod.fst).Nodup ∧
+    1 ∉ ([(4, fun q => q), (7, fun q => q)] : List (Nat × (V3 → V3))).map Prod.fst := by
+  constructor <;> decide
+
 end CBV.C17
